@@ -22,8 +22,9 @@ from .interp import Interp, function_ast, qualname_of
 from . import api
 from .modular import eval_cfn, clauses
 
-Z3_TIMEOUT_MS = int(os.environ.get('PYVC_Z3_TIMEOUT_MS', '20000'))
-CVC5_TIMEOUT_MS = int(os.environ.get('PYVC_CVC5_TIMEOUT_MS', '30000'))
+Z3_TIMEOUT_MS = int(os.environ.get('PYVC_Z3_TIMEOUT_MS', '45000'))      # wall-clock budgets sized for 16 busy cores (a query that
+# needs 7 s alone was seen to need more than 30 s when every core runs a solver)
+CVC5_TIMEOUT_MS = int(os.environ.get('PYVC_CVC5_TIMEOUT_MS', '75000'))
 
 
 def resolve(target):
